@@ -91,6 +91,28 @@ func c19One(c *Ctx, gc *GCase, sub string, local map[string]int64) {
 		r.Violation("empty-privilege-list", det("RequiredPrivileges returned an empty list"))
 		return
 	}
+	// the list belongs to the caller: overwriting it must not change what the
+	// next call - on this or on another statement of the same kind - answers
+	{
+		firstAnswer := fmt.Sprintf("%+v", privs)
+		scratch := privs
+		privs = append(influxql.ExecutionPrivileges(nil), privs...)
+		for i := range scratch {
+			scratch[i] = influxql.ExecutionPrivilege{Admin: false, Name: "~overwritten~", Privilege: influxql.NoPrivileges}
+		}
+		var again, other influxql.ExecutionPrivileges
+		mon.Try(func() {
+			again, _ = st.RequiredPrivileges()
+			if st2, err := influxql.ParseStatement(gc.Text); err == nil {
+				other, _ = st2.RequiredPrivileges()
+			}
+		})
+		if a, o := fmt.Sprintf("%+v", again), fmt.Sprintf("%+v", other); a != firstAnswer || o != firstAnswer {
+			r.Violation("privileges-not-a-function-of-the-statement", det(fmt.Sprintf("first answer %s; after the caller overwrote the returned list the same statement answers %s and a fresh parse answers %s", firstAnswer, a, o)))
+			return
+		}
+		local["answer-survives-caller-edit"]++
+	}
 	if c19admin[kind] {
 		adm := false
 		for _, p := range privs {
@@ -155,6 +177,10 @@ func c19One(c *Ctx, gc *GCase, sub string, local map[string]int64) {
 				}
 			})
 			psel.Sources = append(psel.Sources, &influxql.Measurement{Database: "added_db", Name: "added_m"})
+			// what is read is decided by where a measurement stands, not by flags a
+			// caller may have left on it (a source cloned from a target, a source
+			// served by a system iterator)
+			psel.Sources = append(psel.Sources, &influxql.Measurement{Database: "flagged_db", Name: "was_target", IsTarget: true}, &influxql.Measurement{Database: "system_db", Name: "_series", SystemIterator: "_series"})
 			if psel.Target == nil {
 				psel.Target = &influxql.Target{Measurement: &influxql.Measurement{Database: "added_target", Name: "t", IsTarget: true}}
 			}
